@@ -58,6 +58,9 @@ def documents():
         'nasty': ({'lmf_version': v, 'lexicons': [nasty]}, []),
         'frame-senses': ({'lmf_version': v, 'lexicons': [fs]}, []),
         'v1.0': ({'lmf_version': '1.0', 'lexicons': [docs.maximal('1.0')]}, []),
+        # an extension whose base is missing is skipped as a whole - and nothing else is
+        'skip-mix': ({'lmf_version': v, 'lexicons': [docs.extension(v, docs.maximal(v, lid='nb'), lid='xq'), S, T]}, []),
+        'skip-mix-ref': ({'lmf_version': v, 'lexicons': [S, T]}, []),
     }
     return out
 
@@ -117,6 +120,11 @@ def check(case):
         if docname == 'ili':
             parts, resource, pre, suffix = [('cili', ILI_TSV)], None, [], '.tsv'
             pre = [documents()['single'][0]]
+        elif docname.startswith('boundary-'):
+            # a file larger than the usual I/O block sizes whose second lexicon tag straddles a 64 KiB offset
+            from .c20 import boundary_doc
+            text = boundary_doc(65536, int(docname.split('-')[1]), 'multi', 'lines')
+            parts, resource, pre, suffix = [('whole', text.encode('ascii'))], None, [], '.xml'
         else:
             resource, pre = documents()[docname]
             parts, suffix = routes.resource_parts(resource), '.xml'
@@ -199,8 +207,13 @@ def _reference(docname, d):
         if docname == 'ili':
             env.add(env.write_file('pre.xml', xmlw.serialize(documents()['single'][0]), d))
             env.add(env.write_file('ref.tsv', ILI_TSV, d))
+        elif docname.startswith('boundary-'):
+            # reference through the in-memory route (no pre-scan involved)
+            from .c20 import boundary_doc
+            f = env.write_file('ref.xml', boundary_doc(65536, int(docname.split('-')[1]), 'multi', 'lines').encode('ascii'), d)
+            env.add_resource(lmf.load(f, progress_handler=None))
         else:
-            resource, pre = documents()[docname]
+            resource, pre = documents()['skip-mix-ref' if docname == 'skip-mix' else docname]
             for i, p in enumerate(pre):
                 env.add(env.write_file(f'refpre{i}.xml', xmlw.serialize(p), d))
             env.add(env.write_file('ref.xml', xmlw.serialize(resource), d))
@@ -215,9 +228,13 @@ def _reference(docname, d):
 
 def space(tier, seed):
     cases = []
-    names = list(documents()) + ['ili']
+    names = [n for n in documents() if n != 'skip-mix-ref'] + ['ili'] + [f'boundary-{d}' for d in (0, 1, 9, 120, 200)]
     for name in names:
         rts = routes.ALL_ROUTES if name != 'ili' else [r for r in routes.FILE_ROUTES]
+        if name.startswith('boundary-'):
+            for r1 in ('xml', 'gz', 'tar-package', 'memory'):
+                cases.append({'doc': name, 'r1': r1, 'r2': ['xml', 'memory']})
+            continue
         for r1 in rts:
             if tier == 'thorough' or name in ('double', 'extension', 'ili'):
                 r2 = rts
